@@ -151,3 +151,70 @@ Proof.
 Qed.
 
 End Prob.
+
+(* omen_levels_count of pass 3 as the Counter the writer gets: key -1 for "cannot be generated" *)
+Definition zlevel (o : option nat) : Z := match o with Some n => Z.of_nat n | None => (-1)%Z end.
+Definition zlevels_count (c : list (option nat * nat)) : list (Z * Z) :=
+  map (fun e => (zlevel (fst e), Z.of_nat (snd e))) c.
+
+Lemma zcount_zlevels_count c l : zcount (zlevels_count c) (Z.of_nat l) = Z.of_nat (count_at c (Some l)).
+Proof.
+  unfold zcount, count_at, zlevels_count. induction c as [|[k n] c IH]; [reflexivity|].
+  cbn [map afind find fst snd]. destruct k as [m|]; cbn [zlevel olevel_eqb].
+  - destruct (Nat.eqb m l) eqn:E.
+    + apply Nat.eqb_eq in E. subst. rewrite Z.eqb_refl. reflexivity.
+    + replace (Z.of_nat m =? Z.of_nat l)%Z with false by (symmetry; apply Z.eqb_neq; apply Nat.eqb_neq in E; lia). exact IH.
+  - replace (-1 =? Z.of_nat l)%Z with false by (symmetry; apply Z.eqb_neq; lia). exact IH.
+Qed.
+
+(* C18_prob for the translated writer, with the Counters as run_trainer.py passes them *)
+Theorem gen_prob_translated_run :
+  forall repr sc A T, ttab_of A = Some T -> wf_ttab T -> levels_le guesser_max_level T ->
+  forall c, reachable T c -> forall max_level maxks pws nvalid base pi fs fs',
+  let st := calc_keyspace T max_level maxks false false c in
+  nvalid <> 0 -> config_frame sc ->
+  py_save_omen_rules_to_disk repr sc A (zcounter_of (ks_done st)) (zlevels_count (levels_count T pws)) (Z.of_nat nvalid) base pi fs
+    = TOk (true, fs') ->
+  exists prob,
+    fs_get fs' (path_join (path_join base n_Omen) n_prob) = Some (zf_text repr (most_common_by PrimFloat.ltb (zprob_of prob))) /\
+    forall L p, In (L, p) prob -> (forall v, In (L, v) (ks_done st) -> (v <= maxks)%N) ->
+      let members := level_strings (gview T) (Z.of_nat L) in
+      p = PrimFloat.div
+            (PrimFloat.div (float_of_N (N.of_nat (length (filter (fun pw => existsb (ostr_eqb pw) members) pws))))
+                           (float_of_N (N.of_nat nvalid)))
+            (float_of_N (N.of_nat (length members))).
+Proof.
+  intros repr sc A T HT Hwf Hle c Hc max_level maxks pws nvalid base pi fs fs' st Hnv Hfr H.
+  eapply gen_prob_translated; eauto. intro l. apply zcount_zlevels_count.
+Qed.
+
+(* an oracle for _save_config that writes some text to the file it is asked to write satisfies the frame condition *)
+Lemma config_frame_put (text : pinfo -> ostr) : config_frame (fun d f pi fs => Some (fs_put fs (path_join d f) (text pi))).
+Proof.
+  intros d f pi fs fs' H q Hq. inversion H. apply fs_get_put_other. congruence.
+Qed.
+
+(* the hypotheses of gen_prob_translated_run are satisfiable: a smoothed object with the table view T_r9
+   (the witness table of C18), the Counter calc_omen_keyspace returns for it, pass 3 over four passwords *)
+Definition A_r9 : alookup :=
+  mk_alookup [97; 98]%N 2 4 2
+    [([97]%N, mk_gentry 3 1 3 [(98%N, NLevel 0 3)] (Some 0%Z) (Some 0%Z));
+     ([98]%N, mk_gentry 1 3 1 [(97%N, NLevel 0 1)] (Some 10%Z) (Some 0%Z))]
+    4 4 4 [NLevel 10 0; NLevel 1 2; NLevel 10 1; NLevel 0 1].
+
+Example gen_prob_example :
+  ttab_of A_r9 = Some T_r9 /\ wf_ttab T_r9 /\ levels_le guesser_max_level T_r9 /\ reachable T_r9 [] /\
+  config_frame (fun d f _ fs => Some (fs_put fs (path_join d f) [])) /\
+  let pws := [[97; 98]; [97; 98; 97]; [98; 97; 98; 97]; [99; 99]]%N in
+  let st := calc_keyspace T_r9 18 10000000000 false false [] in
+  exists fs',
+    py_save_omen_rules_to_disk (fun _ => [63]%N) (fun d f _ fs => Some (fs_put fs (path_join d f) []))
+      A_r9 (zcounter_of (ks_done st)) (zlevels_count (levels_count T_r9 pws)) 4 [100]%N (mk_pinfo [] 2 [97; 98]%N) [] = TOk (true, fs') /\
+    zlevels_count (levels_count T_r9 pws) = [(1, 1); (10, 2); (-1, 1)]%Z /\
+    fs_get fs' (path_join (path_join [100]%N n_Omen) n_keyspace) <> None /\
+    exists prob, prob_counter (zcounter_of (ks_done st)) (zlevels_count (levels_count T_r9 pws)) 4 = TOk prob /\ length prob = 3.
+Proof.
+  split; [reflexivity|]. split; [apply T_r9_wf|]. split; [apply T_r9_wf|]. split; [constructor|].
+  split; [apply (config_frame_put (fun _ => []))|].
+  vm_compute. eexists. split; [reflexivity|]. split; [reflexivity|]. split; [discriminate|]. eexists. split; reflexivity.
+Qed.
